@@ -221,7 +221,8 @@ where
 
     #[inline(always)]
     pub fn read_at(&self, index: usize, reader: &Reader) -> Result<T> {
-        let len = self.base.len();
+        // Only stored values are behind the reader; pushed ones are not in the region yet.
+        let len = self.stored_len();
         if likely(index < len) {
             Ok(self.unchecked_read_at(index, reader))
         } else {
